@@ -8,11 +8,38 @@
     What is decided by execution on every run: totality of parse() and the
     full well-formedness predicate [Model.Tree.wf], which is a Coq function
     evaluated (vm_compute) on every tree the real parser returns for token
-    soups, grammar documents, mutated test pages and nesting ladders.  The
-    ~25 token handlers and the regex tokenizer are not modelled. *)
+    soups, grammar documents, mutated test pages and nesting ladders.  Of the
+    ~25 token handlers the table handlers are modelled (Model/Tables.v, tied
+    to the parser by C03's check): for them the table clause of
+    well-formedness is an invariant proved for every token sequence.  The
+    other handlers and the regex tokenizer are not modelled. *)
 From Coq Require Import List Bool.
 Import ListNotations.
 From WTP Require Import Model.Tree Proofs.TreeProofs.
+From WTP Require Model.Tables Proofs.TablesInvProofs.
+
+(* The table clause of well-formedness, for EVERY sequence of table tokens and text in any order (malformed ones
+   included: cells outside rows, captions after rows, ends without starts, ...): whenever the table handlers, as
+   transcribed in Model/Tables.v, return a tree, rows and captions sit directly under a table and cells directly
+   under a row, at the top level and at every depth.  (Invariant of the parser stack: a node is only ever pushed
+   onto a permitted parent, and closing a node keeps it under that parent.) *)
+Theorem c01_table_trees_are_well_formed :
+  forall ts ch, Tables.parse ts = Some ch ->
+    forallb (TablesInvProofs.child_ok Tables.KBottom) ch = true.
+Proof. exact TablesInvProofs.parsed_trees_are_well_formed. Qed.
+Print Assumptions c01_table_trees_are_well_formed.
+
+(* the invariant itself, handler by handler *)
+Theorem c01_table_handlers_keep_the_stack_well_formed :
+  forall st t st', TablesInvProofs.Good st -> Tables.step st t = Some st' -> TablesInvProofs.Good st'.
+Proof. exact TablesInvProofs.step_ok. Qed.
+Print Assumptions c01_table_handlers_keep_the_stack_well_formed.
+
+Example c01_a_malformed_table_soup :
+  let ts := [Tables.TBar true; Tables.TStart; Tables.TBang2; Tables.TCaption; Tables.TText (1%nat, true); Tables.TBar2;
+             Tables.TStart; Tables.TRow; Tables.TRow; Tables.TBang true; Tables.TCaption; Tables.TEnd; Tables.TBar true; Tables.TEnd; Tables.TEnd] in
+  exists ch, Tables.parse ts = Some ch /\ forallb (TablesInvProofs.child_ok Tables.KBottom) ch = true.
+Proof. eexists. split; [vm_compute; reflexivity | reflexivity]. Qed.
 
 Theorem c01_merge_no_adjacent_strings :
   forall A S cat is_empty fin (l : list (mchild A S)),
